@@ -1,2 +1,78 @@
-(* Properties_C10_tdigest.v - statements are added below as the proofs land *)
-From DS Require Import TDigestCodecDefs.
+(* Properties_C10_tdigest.v — the tdigest<double> image has the documented layout, and the two big-endian formats of the reference
+   implementation that deserialize() accepts are read as documented.  Statements only; proofs in TDigestCodecProofs.v. *)
+From Coq Require Import NArith List Bool.
+From DS Require Import Word TDigestCodecDefs TDigestCodecProofs.
+Import ListNotations.
+Local Open Scope N_scope.
+
+(* bytes 0..7: preamble longs (1 if empty or single value, else 2), serial version 1, sketch type 20, k (uint16, little endian),
+   flags, two unused zero bytes *)
+Theorem C10_td_preamble : forall s, c_k s < 65536 ->
+  firstn 8 (enc s) = [pre_longs s; 1; 20; w8 (c_k s); w8 (N.shiftr (c_k s) 8); flags s; 0; 0] /\
+  le_bytes_to_N [nth 3 (enc s) 0; nth 4 (enc s) 0] = c_k s /\
+  (pre_longs s = if is_empty s || is_single s then 1 else 2).
+Proof. exact layout_preamble. Qed.
+
+(* flag bits: 0 IS_EMPTY, 1 IS_SINGLE_VALUE, 2 REVERSE_MERGE; nothing else is ever set *)
+Theorem C10_td_flags : forall s,
+  N.testbit (flags s) 0 = is_empty s /\ N.testbit (flags s) 1 = is_single s /\ N.testbit (flags s) 2 = c_rev s /\ flags s < 8.
+Proof. exact flags_bits. Qed.
+
+Theorem C10_td_empty : forall s, is_empty s = true -> length (enc s) = 8%nat.
+Proof. exact layout_empty. Qed.
+
+(* a single value: the value (min_) at byte 8, 16 bytes in all *)
+Theorem C10_td_single : forall s, is_empty s = false -> is_single s = true -> skipn 8 (enc s) = u64 (c_min s) /\ length (enc s) = 16%nat.
+Proof. exact layout_single. Qed.
+
+(* more than one value: number of centroids at 8, number of buffered values at 12, min at 16, max at 24, centroid i (mean, weight)
+   at 32 + 16 i, buffered value j at 32 + 16 * centroids + 8 j; all little endian *)
+Theorem C10_td_multi : forall s, is_empty s = false -> is_single s = false ->
+  skipn 8 (enc s) = u32 (N.of_nat (length (c_cents s))) ++ u32 (N.of_nat (length (c_buf s))) ++ u64 (c_min s) ++ u64 (c_max s) ++
+                    flat_map enc_cent (c_cents s) ++ flat_map u64 (c_buf s) /\
+  firstn 4 (skipn 8 (enc s)) = u32 (N.of_nat (length (c_cents s))) /\
+  firstn 4 (skipn 12 (enc s)) = u32 (N.of_nat (length (c_buf s))) /\
+  firstn 8 (skipn 16 (enc s)) = u64 (c_min s) /\
+  firstn 8 (skipn 24 (enc s)) = u64 (c_max s) /\
+  (forall i c, nth_error (c_cents s) i = Some c -> firstn 16 (skipn (32 + 16 * i) (enc s)) = u64 (fst c) ++ u64 (snd c)) /\
+  (forall j v, nth_error (c_buf s) j = Some v -> firstn 8 (skipn (32 + 16 * length (c_cents s) + 8 * j) (enc s)) = u64 v).
+Proof. exact layout_multi. Qed.
+
+(* old images stay readable: the reference implementation's asBytes() form (type 1: doubles) ... *)
+Theorem C10_td_compat_double : forall mn mx kd cs cs' k rest,
+  mn < two64 -> mx < two64 -> kd < two64 -> N.of_nat (length cs) < two32 ->
+  f64_to_N two16 kd = Some k -> 10 <= k -> Forall2 read_d cs cs' ->
+  dec (enc_compat_d mn mx kd cs ++ rest) =
+  Some ({| c_k := k; c_rev := false; c_min := mn; c_max := mx; c_cents := cs'; c_buf := [] |}, rest).
+Proof. exact compat_d_read. Qed.
+
+(* ... and its asSmallBytes() form (type 2: min / max doubles, k and the centroids floats, 4 unused bytes, 16-bit count) *)
+Theorem C10_td_compat_float : forall mn mx kf unused cs cs' k rest,
+  mn < two64 -> mx < two64 -> kf < two32 -> length unused = 4%nat -> N.of_nat (length cs) < 65536 ->
+  f64_to_N two16 (f32_to_f64 kf) = Some k -> 10 <= k -> Forall2 read_f cs cs' ->
+  dec (enc_compat_f mn mx kf unused cs ++ rest) =
+  Some ({| c_k := k; c_rev := false; c_min := mn; c_max := mx; c_cents := cs'; c_buf := [] |}, rest).
+Proof. exact compat_f_read. Qed.
+
+(* non-vacuity: the two reference images used by the correspondence runs (min 1.0, max 3.0, k 100, centroids (1.0, w 1), (2.5, w 2)),
+   and the conversions on some patterns: 100.0 -> 100, 2.75 -> 2, 1.0f -> 1.0, the smallest float subnormal, -0.0f *)
+Example C10_ex_compat :
+  dec ([0;0;0;1; 63;240;0;0;0;0;0;0; 64;8;0;0;0;0;0;0; 64;89;0;0;0;0;0;0; 0;0;0;2;
+        63;240;0;0;0;0;0;0; 63;240;0;0;0;0;0;0; 64;0;0;0;0;0;0;0; 64;4;0;0;0;0;0;0]) =
+  Some ({| c_k := 100; c_rev := false; c_min := 4607182418800017408; c_max := 4613937818241073152;
+           c_cents := [(4607182418800017408, 1); (4612811918334230528, 2)]; c_buf := [] |}, []) /\
+  dec ([0;0;0;2; 63;240;0;0;0;0;0;0; 64;8;0;0;0;0;0;0; 66;200;0;0; 7;7;7;7; 0;2;
+        63;128;0;0; 63;128;0;0; 64;0;0;0; 64;32;0;0]) =
+  Some ({| c_k := 100; c_rev := false; c_min := 4607182418800017408; c_max := 4613937818241073152;
+           c_cents := [(4607182418800017408, 1); (4612811918334230528, 2)]; c_buf := [] |}, []) /\
+  f64_to_N two16 4636737291354636288 = Some 100 /\ f64_to_N two64 4613374868287651840 = Some 2 /\
+  f32_to_f64 1065353216 = 4607182418800017408 /\ f32_to_f64 1 = 3936146074321813504 /\ f32_to_f64 2147483648 = 9223372036854775808.
+Proof. vm_compute. repeat split; reflexivity. Qed.
+
+Print Assumptions C10_td_preamble.
+Print Assumptions C10_td_flags.
+Print Assumptions C10_td_empty.
+Print Assumptions C10_td_single.
+Print Assumptions C10_td_multi.
+Print Assumptions C10_td_compat_double.
+Print Assumptions C10_td_compat_float.
